@@ -38,6 +38,7 @@ class C38(EngineACheck):
         prog = Gen(ch, cfg).generate()
         nodes = [n for t in prog.tasks for n in walk(t.body)]
         subs = [n for n in nodes if n[0] == "subrun"]
+        out.key = out.digest = "no-subrun/" + prog.key()
         if not subs:
             return out
         try:
